@@ -336,7 +336,7 @@ def _compare(model, listed, kind):
 
 def describe(tier):
     return {
-        "alphabet": "operations add(f) for f in {} and save+re-open, on cassette and disk host files; files whose names hold punctuation (V.1.2, A.B, END., X,Y ...) followed by three appends; every file kind at the 6 lengths around its first two granule boundaries between two other files; histories of 2-4 steps on the container object itself "
+        "alphabet": "operations add(f) for f in {} and save+re-open, on cassette and disk host files; every kind appended at the lengths where data or trailer cross a sector boundary inside the last granule (245..256, 503, 2552, 2553); files whose names hold punctuation (V.1.2, A.B, END., X,Y ...) followed by three appends; every file kind at the 6 lengths around its first two granule boundaries between two other files; histories of 2-4 steps on the container object itself "
                     "(add small / BASIC / ASCII / 30- and 40-granule files, re-open from bytes; additions that do not fit must be refused and leave the rest in place); ASCII files of 65535, 65536, 70000, 100000 bytes and of "
                     "exactly / one more than the whole disk (156671 / 156672 bytes) in 7 histories per medium; big-cassette histories with 65535-byte "
                     "files of 5 content patterns (incl. planted directory entries) crossing 161,280 bytes, and three files whose cassette image is "
